@@ -47,11 +47,13 @@ class Sess:
         self.meta.append(meta)
         return r
 
-    def finish(self):
+    def finish(self, post=None):
         model = Driver().run(self.lines) if self.lines else []
+        if post is not None:
+            model = [post(x) for x in model]
         dis = []
         for i, (l, a, b) in enumerate(zip(self.lines, self.impl, model)):
-            if a != b:
+            if a is not None and a != b:
                 dis.append({"index": i, "op": l, "impl": a, "model": b, "meta": self.meta[i]})
         self.model = model
         return dis
